@@ -32,6 +32,8 @@ class Lemma:
         self.name, self.vars, self.body, self.patterns = name, list(vars), body, patterns
         self.induct, self.uses, self.auto, self.lean, self.depth = induct, list(uses), auto, lean, depth
         self.cases = cases
+        self.assumed = False
+        self.note = ""
         if self.vars:
             self.formula = z3.ForAll(self.vars, body, patterns=patterns or [])
         else:
@@ -73,8 +75,9 @@ class Lemma:
 
 
 class ClassDecl:
-    def __init__(self, key, fields, invariant=(), bases=(), construct=None, private_prefix=None, gen=None):
+    def __init__(self, key, fields, invariant=(), bases=(), construct=None, private_prefix=None, gen=None, virtual=None):
         self.gen = gen
+        self.virtual = dict(virtual or {})   # callable fields given by a handler (stated class invariant on that field)
         self.key = key                  # "path.py:ClassName"
         self.name = key.split(":")[1]
         self.fields = dict(fields)      # name -> Ty
@@ -87,7 +90,10 @@ class Contract:
     def __init__(self, key, params, returns=None, requires=(), ensures=(), raises=None, loops=None,
                  modifies=(), inline=(), witness=(), ghost=(), trusted=False, pure=False, note="",
                  raise_ensures=None, decreases=None, body=None, unroll=None, assume_valid=True,
-                 replay=None, props=(), lemmas=(), locals=None, hints=(), domains=None, gen=None):
+                 replay=None, props=(), lemmas=(), locals=None, hints=(), domains=None, gen=None, ghost_scope=None, no_runtime=False, bounded_only=False):
+        self.no_runtime = no_runtime      # no run-time cross-check (e.g. constructors whose receiver cannot be pre-built)
+        self.bounded_only = bounded_only  # outside the verifier's reach: only the bounded stand-in runs
+        self.ghost_scope = ghost_scope     # for ghost client code: repo module whose names are in scope
         self.domains = dict(domains or {})   # generator hints for the run-time cross-check (param -> generator type)
         self.gen = gen
         self.key = key                    # "path.py:qualname"
@@ -131,6 +137,16 @@ def specfn(name, arg_tys, ret_ty, define=None, py=None, doc=""):
 
 def lemma(name, vars, body, **kw):
     l = Lemma(name, vars, body, **kw)
+    LEMMAS[name] = l
+    return l
+
+
+def axiom(name, vars, body, patterns=None, note="", auto=False):
+    """An *assumed* fact (ideal primitive / external library behaviour). Never proved; every axiom used by a
+    discharged obligation is listed in the evidence under assumptions."""
+    l = Lemma(name, vars, body, patterns=patterns, auto=auto)
+    l.assumed = True
+    l.note = note
     LEMMAS[name] = l
     return l
 
